@@ -22,7 +22,7 @@ prop("C16",
                 "(`event-state-denies-allowed` / `event-state-accepts-forbidden`; the stale membership UpdatePod leaves "
                 "behind is known finding `relabel-stale-membership-until-resync`, theorem `counter_relabel_stale`).",
      level_note="model of the compiler hand-written, tied to /repo by (T) regenerated prefixes / set-name formats / rule "
-                "templates / defaulting functions / shape facts (Generated/Policy.lean; template_* and fact_* theorems) and "
+                "templates / defaulting functions / shape facts (Generated/Policy.lean; template_* and fact_* theorems); the translator first brings every function into a canonical form (tools/factgen/cmd/policy/norm.go, harmless/NORMALISE.md: renamed locals, guard clauses, switch / range forms, inlined locals, helpers one level, Sprintf vs concatenation are invisible; rule word order, constants, guards and the order of side-effecting calls are not; unit tests norm_test.go) and "
                 "(X) equality of the canonical dump of the real code with the model's compile output on generated "
                 "clusters; ipset/iptables are fakes; hash:net lookup semantics (most specific entry decides, nomatch) "
                 "transcribed from the ipset documentation / kernel source, not executed (no ipset binary in the sandbox)",
